@@ -6,7 +6,9 @@ import Lean
     contains a fence and push starts with one (`myth_rbarrier` = `xchg`), so the owner's buffer is
     one of finitely many shapes determined by its program counter – `[]`, `[top lt]`,
     `[ptr (lt-1) e, top lt]` for a finished push, those followed by `[top t]` inside pop, … –
-    and a thief's buffer is `[]` except for its one pending `base` store.  The clauses list the
+    a thief's buffer is `[]` except for its one pending `base` store, and a base-side insertion
+    (put by the owner, trypass by anybody else; both under the lock) has its slot store and its
+    inserting `base` store pending, or the latter, or none.  The clauses list the
     shapes together with what memory looks like in each. -/
 namespace MythVerif.WsqTso
 open MythVerif.Wsq
@@ -18,6 +20,7 @@ def ownerLocked : OPc → Bool
 
 def thiefLocked : TPc → Bool
   | .tk1 | .tkf _ | .tk2 _ | .tk3 _ _ | .tk4 _ | .tk5 _ | .tk6 => true
+  | .tp1 _ | .tp1b _ | .tp2 _ _ | .tp3 _ | .tp4 _ => true
   | _ => false
 
 /-- the owner is between operations or at the start of one: its buffer may still hold the
@@ -26,14 +29,15 @@ def carry : OPc → Bool
   | .idle | .stuck | .pu0 _ | .pu0f _ _ | .pq | .po1 | .ptl _ => true
   | _ => false
 
-/-- program counters at which a thief may have a buffered `base` store -/
+/-- program counters at which a thief / passer may have buffered stores -/
 def mayBuf : TPc → Bool
-  | .tkf _ | .tk6 => true
+  | .tkf _ | .tk6 | .tp3 _ | .tp4 _ => true
   | _ => false
 
 /-- lock-holding program counters of a thief at which no increment of `base` is pending or visible -/
 def notTrans : TPc → Bool
   | .tk1 | .tk3 _ _ | .tk4 _ => true
+  | .tp1 _ | .tp1b _ | .tp2 _ _ | .tp3 _ | .tp4 _ => true
   | _ => false
 
 /-- the reset path: memory `top` / `base` lag behind the ghosts until the unlock fence -/
@@ -132,6 +136,9 @@ structure Inv (s : St) : Prop where
   tk3   : ∀ p b x, s.tpc p = .tk3 b x → s.lb = b + 1 ∧ s.ptr b = some x ∧ s.flT = some x
   tk4   : ∀ p r, s.tpc p = .tk4 r → r = s.flT
   tk6   : ∀ p, s.tpc p = .tk6 → Tk6Shape (s.bufT p) s.tr s.lb
+  tp2   : ∀ p e b, s.tpc p = .tp2 e b → b = s.lb
+  tp3   : ∀ p e, s.tpc p = .tp3 e → Pu2Shape (s.bufT p) s.ptr e (s.lb - 1)
+  tp4   : ∀ p ok, s.tpc p = .tp4 ok → InsShape (s.bufT p) s.ptr s.lb
 
 section ForceAux
 open Lean Meta in
